@@ -186,9 +186,8 @@ def c16(tier, seed):
 
 
 def c18(tier, seed):
-    # part 1: the Matcher protocol (stop / EOS / accepting / error latch) on the learned-oracle model
-    res = rel.check_rel("C18", tier, seed, 120, 3000)
-    return res
+    from . import c18 as m
+    return m.check(tier, seed)
 
 
 def c02(tier, seed):
